@@ -9,6 +9,8 @@ import Biogo.Proofs.MorassConc
 import Biogo.Proofs.MorassCycle
 import Biogo.Proofs.MorassHistory
 import Biogo.Properties.C12_history
+import Biogo.Properties.C11_checker
+import Biogo.Drive.C13
 
 namespace Biogo.Properties.C13_history
 open Biogo.Morass Biogo.MorassConc Biogo.Interleave
@@ -59,5 +61,29 @@ example : ∃ s, Reach (sys true 1 false false
   · have : (runFrom S S.init sched).map (fun s => s.outs.reverse.map (·.res))
         = some [.ok, .ok, .ok, .ok, .ok, .ok, .ok, .ioerr] := by decide
     rw [hs] at this; simpa using this
+
+/-- **The executable statement of the C13 driver implies the statement of `history_fault_surfaces`**
+    on the implementation's outputs: if `surfaceStatement` accepts the outputs of a program that
+    `historyOf` recognises as the well-formed history `h`, then some call returned an error
+    (an I/O error, or the "push on finalised" error), or the outputs satisfy `HistorySpec`. -/
+theorem surfaceStatement_sound (ac : Bool) (ops : List Op) (h : List Cycle) (outs : List Out)
+    (hh : historyOf ac ops = some h) (hs : Biogo.Drive.C13.surfaceStatement ac h ops outs = none) :
+    (∃ o ∈ outs, o.res = .ioerr ∨ o.res = .finalised) ∨ HistorySpec ac h outs := by
+  unfold Biogo.Drive.C13.surfaceStatement at hs
+  simp only at hs
+  cases hf : outs.find? (fun o => o.res != .ok && o.res != .eof) with
+  | some o =>
+    left
+    rw [hf] at hs
+    have hmem : o ∈ outs := List.mem_of_find?_eq_some hf
+    have hp := List.find?_some hf
+    refine ⟨o, hmem, ?_⟩
+    simp only [Option.any_some, Option.isSome_some, if_true] at hs
+    cases hr : o.res <;> simp [hr] at hp hs ⊢
+  | none =>
+    right
+    rw [hf] at hs
+    simp only [Option.any_none, Bool.false_eq_true, if_false, Option.isSome_none, Option.map_eq_none_iff] at hs
+    exact (Biogo.Properties.C11_checker.historyStatement_sound ac ops h outs hh hs).2.2
 
 end Biogo.Properties.C13_history
